@@ -94,6 +94,7 @@ def kmsg_path_ignores_silencing(ctx):
 
 
 def run(ctx):
+    uuid_generator_keeps_state(ctx)
     pg_scan_sampling_tick(ctx, "C17")
     saved_context_is_a_copy(ctx, "C17")
     # locals / parameters the rules below refer to by name (a rename makes the analysis 'broken', never a violation)
